@@ -275,7 +275,8 @@ MANIFEST = {
             "handed to scipy vanishes at the returned root, the returned (v+,v-,T+,T-) carry "
             "equal energy and momentum flux; v-^2 = min(vw^2, cs-^2); temperatures lie in the "
             "window; c1, c2, velocityMid of findHydroBoundaries (general and template) are the "
-            "fluxes with the documented signs on both sides.",
+            "fluxes with the documented signs on both sides."
+            " findMatching abandons the exact matching for the template's approximate one only when neither the tried v+ ends nor the re-solved end v+ = cs+^2(T+)/vw nor the bounded search gives a sign change of the shock mismatch.",
     "note": "scipy iterations are contract stubs (exact zero of the real closure); non-zero "
             "accepted residuals, existence of solutions and the template fallback are outside; "
             "reals not floats.",
